@@ -130,7 +130,11 @@ fn identifier_sources_exec(started: &bool, ctx: &crate::explore::WorkerCtx) -> c
         let mut pids: Vec<(String, u32, u32, u32)> = vec![];
         let no_probe = || 0u64;
         let mut seen_frames = 0usize;
+        let conn_arc = nw.node.connections().get(crate::world::PEER_NAME).map(|c| Arc::clone(c.value()));
         for round in 0..4 {
+            // in odd rounds the connection is held by someone else while the calls start: each has drawn its identifier
+            // and waits for the connection when the next one (and a spawn) comes along
+            let mut guard = if round % 2 == 1 { match &conn_arc { Some(c) => Some(c.clone().lock_owned().await), None => None } } else { None };
             for i in 0..3 {
                 let p = nw.node.spawn(crate::procs::Rec { name: format!("p{}_{}", round, i), log: Arc::new(Mutex::new(vec![])) }).await.unwrap();
                 pids.push((format!("spawn {}.{}", round, i), p.id, p.serial, p.creation));
@@ -138,6 +142,13 @@ fn identifier_sources_exec(started: &bool, ctx: &crate::explore::WorkerCtx) -> c
             for i in 0..3 {
                 let node = nw.node.clone();
                 tokio::spawn(async move { let _ = node.rpc_call_raw_with_timeout(crate::world::PEER_NAME, "m", "f", vec![erltf::OwnedTerm::Integer(i)], std::time::Duration::from_secs(5)).await; });
+                // in odd rounds the three calls (and a spawn) start in the same scheduler tick and overlap
+                if round % 2 == 1 {
+                    if i == 1 { let p = nw.node.spawn(crate::procs::Rec { name: format!("mid{}", round), log: Arc::new(Mutex::new(vec![])) }).await.unwrap(); pids.push((format!("spawn between overlapping calls {}", round), p.id, p.serial, p.creation)); }
+                    if i < 2 { for _ in 0..50 { nw.w.yield_once().await; } continue; }
+                    for _ in 0..50 { nw.w.yield_once().await; }
+                    drop(guard.take());
+                }
                 nw.w.settle(&mut nw.peer, &no_probe).await;
                 // in even rounds the peer answers each call at once (answered and timed-out calls both hand out identifiers)
                 if round % 2 == 0 {
@@ -164,7 +175,7 @@ fn identifier_sources_exec(started: &bool, ctx: &crate::explore::WorkerCtx) -> c
         keys.sort();
         let dup = keys.windows(2).any(|w| w[0] == w[1]);
         let r = nw.node.make_reference();
-        if dup || pids.iter().any(|p| p.3 != cr) || r.creation != cr || pids.len() != 24 {
+        if dup || pids.iter().any(|p| p.3 != cr) || r.creation != cr || pids.len() != 26 {
             res.violations.push(("process identifiers issued by one node (spawned processes, reply-to identifiers of remote calls) are not pairwise distinct or carry another creation".into(), json!({"node_creation": cr, "identifiers": pids.iter().map(|p| format!("{}: <{}.{}> creation {}", p.0, p.1, p.2, p.3)).collect::<Vec<_>>(), "reference_creation": r.creation})));
         }
         res.steps = 24;
